@@ -2,7 +2,7 @@
 CHECK = {'level': 'exploration',
  'rule': 'cases = (scripts for 1..3 real sequenceAllocators sharing one counter, batch growth on/off, schedule of their storage steps); systematic part '
          'enumerates schedules depth-first under a preemption bound, random part draws scripts+schedules from the seed; distinct_nontrivial = distinct '
-         '(scripts, schedule fingerprint) with >= 2 context switches between allocators or >= 1 unused-sequence publication',
+         '(scripts, schedule fingerprint) with >= 2 context switches between allocators or >= 1 unused-sequence publication. db part: 2-5 concurrent workers x 6-14 operations (document put / delete on 3 documents, principal updates; in odd rounds conflicting branches and tombstones of leaves with bodies stored outside the revision tree, pushed with ancestry into a 4th document of a conflict-allowing database; in 2 of 3 rounds single-document resyncs with regenerated sequences) with seeded faults: error / applied-then-timeout on the document write, error / CAS mismatch on principal writes, forced CAS retries, error or timeout in the compute->CAS window, errors on the reads and inserts of external revision bodies issued inside the update callback (after the sequence was assigned); oracle = sequence ledger over the storage log + change-cache progress',
  'parts': [{'name': 'alloc-systematic', 'pkg': 'db', 'run': '^TestVerif_C07_AllocSystematic$', 'timeout_q': 400, 'timeout_t': 2400},
            {'name': 'alloc-random', 'pkg': 'db', 'run': '^TestVerif_C07_AllocRandom$', 'timeout_q': 400, 'timeout_t': 2400},
            {'name': 'alloc-race', 'pkg': 'db', 'race': True, 'run': '^TestVerif_C07_AllocRace$', 'timeout_q': 400, 'timeout_t': 2400},
